@@ -1582,6 +1582,45 @@ fn run_case(cx: &mut CaseCtx, p: &mut Prng, acc: &mut Acc) {
 	}
 }
 
+/// The chain side of a `grin_pool::Pool` that is only used as a container here (entries are pushed directly).
+struct NoChain;
+impl grin_pool::BlockChain for NoChain {
+	fn verify_coinbase_maturity(&self, _: &Inputs) -> Result<(), grin_pool::PoolError> {
+		Ok(())
+	}
+	fn verify_tx_lock_height(&self, _: &Transaction) -> Result<(), grin_pool::PoolError> {
+		Ok(())
+	}
+	fn validate_tx(&self, _: &Transaction) -> Result<(), grin_pool::PoolError> {
+		Ok(())
+	}
+	fn validate_inputs(&self, _: &Inputs) -> Result<Vec<grin_core::core::OutputIdentifier>, grin_pool::PoolError> {
+		Ok(vec![])
+	}
+	fn chain_head(&self) -> Result<BlockHeader, grin_pool::PoolError> {
+		Ok(BlockHeader::default())
+	}
+	fn get_block_header(&self, _: &Hash) -> Result<BlockHeader, grin_pool::PoolError> {
+		Err(grin_pool::PoolError::Other("no chain".into()))
+	}
+	fn get_block_sums(&self, _: &Hash) -> Result<grin_core::core::BlockSums, grin_pool::PoolError> {
+		Err(grin_pool::PoolError::Other("no chain".into()))
+	}
+}
+
+/// The node's route from a compact block to the transactions it hydrates from: the pool holds `txs` (in this
+/// grouping) among unrelated entries, in shuffled order, and is asked for the compact block's kernel short ids.
+fn via_pool_lookup(txs: &[Transaction], decoys: &[Transaction], cb: &CompactBlock, p: &mut Prng) -> (Vec<Transaction>, usize) {
+	let mut all: Vec<Transaction> = txs.iter().cloned().chain(decoys.iter().cloned()).collect();
+	p.shuffle(&mut all);
+	let mut pool = grin_pool::Pool::new(std::sync::Arc::new(NoChain), "c12".to_string());
+	for t in all {
+		pool.entries.push(grin_pool::PoolEntry::new(t, grin_pool::TxSource::Broadcast));
+	}
+	let (found, missing) = pool.retrieve_transactions(cb.hash(), cb.nonce, cb.kern_ids());
+	(found, missing.len())
+}
+
 #[allow(clippy::too_many_arguments)]
 fn hydration(
 	cx: &mut CaseCtx,
@@ -1732,6 +1771,41 @@ fn hydration(
 			cb
 		};
 
+		// every second time the transactions reach hydrate_from the way they do in a node: through the pool's
+		// lookup by kernel short id (the pool holds them in this grouping, among unrelated entries)
+		let (txs, vname): (Vec<Transaction>, &'static str) = if p.bool() {
+			let decoys: Vec<Transaction> = cx
+				.pool
+				.base
+				.iter()
+				.enumerate()
+				.filter(|(i, _)| !flat.contains(i))
+				.map(|(_, b)| b.tx.clone())
+				.take(4)
+				.collect();
+			let (found, n_missing) = via_pool_lookup(&txs, &decoys, &cb, p);
+			acc.count("hydrations_via_pool_lookup", 1);
+			if txs.iter().any(|t| t.kernels().len() > 1) {
+				acc.count("hydrations_via_pool_lookup_with_multi_kernel_entries", 1);
+			}
+			if n_missing != 0 {
+				acc.violation(
+					format!("oracle=pool_lookup_complete;grouping={}", vname),
+					format!("the pool holds every transaction of the block (grouping {}) but retrieve_transactions reports {} of {} kernel short ids missing", vname, n_missing, cb.kern_ids().len()),
+					replay.clone(),
+				);
+			}
+			let vn: &'static str = match vname {
+				"original" => "original_via_pool",
+				"permuted" => "permuted_via_pool",
+				"partially_aggregated" => "partially_aggregated_via_pool",
+				"full_aggregate" => "full_aggregate_via_pool",
+				_ => "base_transactions_via_pool",
+			};
+			(found, vn)
+		} else {
+			(txs, vname)
+		};
 		match Block::hydrate_from(cb, &txs) {
 			Ok(h) => {
 				let same_hash = h.hash() == block_hash;
